@@ -11,7 +11,6 @@ import (
 	"github.com/mithrandie/csvq/lib/parser"
 	"pgregory.net/rapid"
 
-	"verif/internal/fw"
 	"verif/internal/run"
 )
 
@@ -43,13 +42,40 @@ type qg struct {
 	feats  map[string]bool
 	nAlias int
 	ctes   []fixTable
+	used   map[string]bool // table reference names of the FROM clause being rendered
 }
 
-func (g *qg) feat(s string) { g.feats[s] = true }
-func (g *qg) n(label string, lo, hi int) int {
-	return rapid.IntRange(lo, hi).Draw(g.t, label)
+func (g *qg) feat(s string)                  { g.feats[s] = true }
+func (g *qg) n(label string, lo, hi int) int { return uniform(g.t, label, lo, hi) }
+
+// uniform draws an integer of [lo, hi] with (nearly) equal probabilities.
+// rapid's own range generators favour small values and the bounds, which
+// would make every "first alternative" dominate; the draw is still a rapid draw
+// (replayable, and 0 shrinks to lo).
+func uniform(t *rapid.T, label string, lo, hi int) int {
+	u := rapid.Uint64().Draw(t, label)
+	u ^= u >> 33
+	u *= 0xff51afd7ed558ccd
+	u ^= u >> 33
+	u *= 0xc4ceb9fe1a85ec53
+	u ^= u >> 33
+	return lo + int(u%uint64(hi-lo+1))
 }
-func (g *qg) chance(label string, pct int) bool { return g.n(label, 0, 99) < pct }
+
+func chance(t *rapid.T, label string, pct int) bool { return uniform(t, label, 0, 99) < pct }
+
+func pickOf[T any](t *rapid.T, label string, xs []T) T { return xs[uniform(t, label, 0, len(xs)-1)] }
+func (g *qg) chance(label string, pct int) bool        { return g.n(label, 0, 99) < pct }
+
+// rare returns bad (a name that makes evaluation fail) with 4% probability, else one of xs.
+func (g *qg) rare(bad string, xs []string) string {
+	if g.n("rare", 0, 24) == 0 {
+		g.feat("undefined_name")
+		return bad
+	}
+	return g.pick("common", xs)
+}
+
 func (g *qg) pick(label string, xs []string) string {
 	return xs[g.n(label, 0, len(xs)-1)]
 }
@@ -157,7 +183,7 @@ func (g *qg) strLit() string {
 	for i := 0; i < n; i++ {
 		switch g.n("strpiece", 0, 13) {
 		case 0, 1, 2, 3, 4:
-			b.WriteString(g.pick("strplain", strPlain))
+			b.WriteString(strings.ReplaceAll(g.pick("strplain", strPlain), q, q+q))
 		case 5:
 			g.feat("str_quote_escape")
 			if g.n("strqq", 0, 1) == 0 {
@@ -185,7 +211,7 @@ func (g *qg) strLit() string {
 			g.feat("str_inert_syntax")
 			b.WriteString(g.pick("strinert", strInert))
 		default:
-			b.WriteString(g.pick("strplain2", strPlain))
+			b.WriteString(strings.ReplaceAll(g.pick("strplain2", strPlain), q, `\`+q))
 		}
 	}
 	b.WriteString(q)
@@ -218,7 +244,14 @@ func (g *qg) leaf(c ectx) []string {
 	k := g.n("leaf", 0, 29)
 	if len(c.cols) > 0 && k < 12 {
 		g.feat("column")
-		return g.colRef(c.cols[g.n("colidx", 0, len(c.cols)-1)])
+		pickd := c.cols[g.n("colidx", 0, len(c.cols)-1)]
+		for _, o := range c.cols {
+			if o != pickd && strings.EqualFold(o.name, pickd.name) && pickd.tbl != "" && g.n("allowambig", 0, 19) != 0 {
+				g.feat("qualified_column")
+				return one(g.ident(pickd.tbl) + "." + g.ident(pickd.name))
+			}
+		}
+		return g.colRef(pickd)
 	}
 	switch k % 18 {
 	case 0, 1, 2:
@@ -233,19 +266,19 @@ func (g *qg) leaf(c ectx) []string {
 		return g.kw(g.pick("tern", []string{"TRUE", "FALSE", "UNKNOWN", "NULL"}))
 	case 8:
 		g.feat("variable")
-		return one(g.pick("var", []string{"@v1", "@v2", "@v3", "@V1", "@zz"}))
+		return one(g.rare("@zz", []string{"@v1", "@v2", "@v3", "@v1"}))
 	case 9:
 		g.feat("env_var")
-		return one(g.pick("env", []string{"@%C18_ENV", "@%`C18 ENV`", "@%`C18_ENV`", "@%NO_SUCH_C18"}))
+		return one(g.pick("env", []string{"@%C18_ENV", "@%`C18 ENV`", "@%`C18_ENV`", "@%`C18 ENV`", "@%NO_SUCH_C18"}))
 	case 10:
 		g.feat("flag_or_info")
-		return one(g.pick("flag", []string{"@@CPU", "@@ansi_quotes", "@@DELIMITER", "@#VERSION", "@#version", "@#UPTIME", "@@no_such"}))
+		return one(g.rare(g.pick("badflag", []string{"@#UPTIME", "@@no_such"}), []string{"@@CPU", "@@ansi_quotes", "@@DELIMITER", "@#VERSION", "@#version", "@@Quiet", "@@DATETIME_FORMAT"}))
 	case 11:
 		g.feat("constant")
-		return one(g.pick("const", []string{"MATH::PI", "math::e", "Integer::Max", "FLOAT::MAX", "MATH::NOPE"}))
+		return one(g.rare("MATH::NOPE", []string{"MATH::PI", "math::e", "Integer::Max", "FLOAT::MAX", "Math::Sqrt2"}))
 	case 12:
 		g.feat("cursor_status")
-		cur := g.pick("cur", []string{"cur", "cur2", "CUR", "`cur`", "nocur"})
+		cur := g.rare("nocur", []string{"cur", "cur2", "CUR", "`cur`", "cur"})
 		switch g.n("curk", 0, 4) {
 		case 0:
 			return cat(g.kw("CURSOR"), one(cur), g.kw("IS OPEN"))
@@ -264,13 +297,13 @@ func (g *qg) leaf(c ectx) []string {
 				g.feat("positional_placeholder")
 				return one("?")
 			}
-			return one(g.pick("ph", []string{":p1", ":p2", ":p3", ":p1", ":nope"}))
+			return one(g.rare(":nope", []string{":p1", ":p2", ":p3", ":p1"}))
 		}
 		return one(g.pick("int2", intLits))
 	case 14:
 		if len(c.cols) > 0 && c.cols[0].tbl != "" {
 			g.feat("column_number")
-			return one(g.ident(c.cols[0].tbl) + "." + g.pick("colno", []string{"1", "2", "01", "9"}))
+			return one(g.ident(c.cols[0].tbl) + "." + g.rare("9", []string{"1", "1", "2", "01"}))
 		}
 		return one(g.strLit())
 	case 15:
@@ -294,8 +327,9 @@ var scalarFns = []fnSpec{
 	{"SUBSTR", 2, 3}, {"INSTR", 2, 2}, {"STRING", 1, 1}, {"INTEGER", 1, 1}, {"FLOAT", 1, 1}, {"BOOLEAN", 1, 1}, {"TERNARY", 1, 1},
 	{"DATETIME", 1, 1}, {"MD5", 1, 1}, {"BASE64_ENCODE", 1, 1}, {"HEX_ENCODE", 1, 1}, {"YEAR", 1, 1}, {"DATETIME_FORMAT", 2, 2}, {"FORMAT", 1, 3},
 	{"REGEXP_MATCH", 2, 2}, {"REGEXP_REPLACE", 3, 3}, {"JSON_VALUE", 2, 2}, {"LIST_ELEM", 3, 3}, {"TITLE_CASE", 1, 1}, {"udf", 1, 2}, {"UDF", 2, 2},
-	{"NOW", 0, 0}, {"RAND", 0, 0}, {"no_such_fn", 0, 2},
 }
+
+var parseOnlyFns = []fnSpec{{"NOW", 0, 0}, {"RAND", 0, 0}, {"no_such_fn", 0, 2}}
 
 var cmpOps = []string{"=", "<", ">", "<=", ">=", "<>", "!=", "=="}
 
@@ -312,65 +346,92 @@ func (g *qg) list(n int, f func() []string) []string {
 	return out
 }
 
-// operand: an expression that is safe as an operand of any operator without relying on precedence (sometimes parenthesised).
 func (g *qg) expr(d int, c ectx) []string {
+	t, _ := g.ex(d, c)
+	return t
+}
+
+// ex renders an expression and returns its binding level: 0 atom, 1
+// arithmetic/concatenation/unary sign, 2 comparison family (not associative in
+// csvq's grammar), 3 NOT/AND/OR. Operands of the comparison family are put in
+// parentheses when they are of level >= 2 (mostly: a few are left bare, such a
+// text may not parse and is then discarded).
+func (g *qg) ex(d int, c ectx) ([]string, int) {
 	if d <= 0 {
-		return g.leaf(c)
+		return g.leaf(c), 0
 	}
-	sub := func() []string { return g.expr(d-1, c) }
+	inner := 0
+	sub := func() []string {
+		t, l := g.ex(d-1, c)
+		if l > inner {
+			inner = l
+		}
+		return t
+	}
+	low := func() []string {
+		t, l := g.ex(d-1, c)
+		if l >= 2 && g.n("lowparen", 0, 29) != 0 {
+			return g.paren(t)
+		}
+		if l > inner {
+			inner = l
+		}
+		return t
+	}
+	lv := func(own int) int { return max(own, inner) }
 	noAgg := ectx{cols: c.cols}
 	k := g.n("expr", 0, 41)
 	switch k {
 	case 0, 1, 2, 3:
-		return g.leaf(c)
+		return g.leaf(c), 0
 	case 4, 5:
 		g.feat("parentheses")
-		return g.paren(sub())
+		return g.paren(sub()), 0
 	case 6:
 		g.feat("unary_arith")
 		op := g.pick("uop", []string{"-", "+"})
-		x := sub()
+		x := low()
 		if avoidKnownDoubleUnaryMinus && op == "-" && len(x) > 0 && strings.HasPrefix(x[0], "-") {
 			x = g.paren(x)
 		}
-		return cat(one(op), x)
+		return cat(one(op), x), lv(1)
 	case 7:
 		g.feat("unary_logic")
 		if g.n("notk", 0, 2) == 0 {
-			x := sub()
+			x := low()
 			if avoidKnownBangBeforeOperator && len(x) > 0 && (strings.HasPrefix(x[0], "!") || strings.HasPrefix(x[0], ":")) {
 				x = g.paren(x)
 			}
 			g.feat("bang")
-			return cat(one("!"), x)
+			return cat(one("!"), x), lv(1)
 		}
-		return cat(g.kw("NOT"), sub())
+		return cat(g.kw("NOT"), sub()), 3
 	case 8, 9, 10:
 		g.feat("arithmetic")
-		return cat(sub(), one(g.pick("aop", []string{"+", "-", "*", "/", "%"})), sub())
+		return cat(low(), one(g.pick("aop", []string{"+", "-", "*", "/", "%"})), low()), lv(1)
 	case 11:
 		g.feat("concat")
-		return cat(sub(), one("||"), sub())
+		return cat(low(), one("||"), low()), lv(1)
 	case 12, 13, 14:
 		g.feat("comparison")
-		return cat(sub(), one(g.pick("cop", cmpOps)), sub())
+		return cat(low(), one(g.pick("cop", cmpOps)), low()), 2
 	case 15, 16:
 		g.feat("logic")
-		return cat(sub(), g.kw(g.pick("lop", []string{"AND", "OR"})), sub())
+		return cat(sub(), g.kw(g.pick("lop", []string{"AND", "OR"})), sub()), 3
 	case 17:
 		g.feat("is")
 		neg := ""
 		if g.chance("isneg", 40) {
 			neg = " NOT"
 		}
-		return cat(sub(), g.kw("IS"+neg), g.kw(g.pick("isrhs", []string{"NULL", "TRUE", "FALSE", "UNKNOWN"})))
+		return cat(low(), g.kw("IS"+neg), g.kw(g.pick("isrhs", []string{"NULL", "TRUE", "FALSE", "UNKNOWN"}))), 2
 	case 18:
 		g.feat("between")
 		neg := ""
 		if g.chance("btneg", 40) {
 			neg = "NOT "
 		}
-		return cat(sub(), g.kw(neg+"BETWEEN"), sub(), g.kw("AND"), sub())
+		return cat(low(), g.kw(neg+"BETWEEN"), low(), g.kw("AND"), low()), 2
 	case 19:
 		g.feat("in")
 		neg := ""
@@ -379,46 +440,48 @@ func (g *qg) expr(d int, c ectx) []string {
 		}
 		if g.chance("insub", 30) {
 			g.feat("in_subquery")
-			return cat(sub(), g.kw(neg+"IN"), g.subquery(d-1, 1, true))
+			return cat(low(), g.kw(neg+"IN"), g.subquery(d-1, 1, true)), 2
 		}
-		return cat(sub(), g.kw(neg+"IN"), g.paren(g.list(g.n("inn", 1, 3), sub)))
+		return cat(low(), g.kw(neg+"IN"), g.paren(g.list(g.n("inn", 1, 3), g.atomArg(d-1, c)))), 2
 	case 20:
 		g.feat("like")
 		neg := ""
 		if g.chance("lkneg", 40) {
 			neg = "NOT "
 		}
-		return cat(sub(), g.kw(neg+"LIKE"), one(g.strLit()))
+		return cat(low(), g.kw(neg+"LIKE"), one(g.strLit())), 2
 	case 21:
 		g.feat("any_all")
 		q := g.pick("anyall", []string{"ANY", "ALL"})
 		if g.chance("anysub", 30) {
-			return cat(sub(), one(g.pick("cop2", cmpOps)), g.kw(q), g.subquery(d-1, 1, true))
+			return cat(low(), one(g.pick("cop2", cmpOps)), g.kw(q), g.subquery(d-1, 1, true)), 2
 		}
-		return cat(sub(), one(g.pick("cop3", cmpOps)), g.kw(q), g.paren(g.list(g.n("anyn", 1, 3), sub)))
+		return cat(low(), one(g.pick("cop3", cmpOps)), g.kw(q), g.paren(g.list(g.n("anyn", 1, 3), g.atomArg(d-1, c)))), 2
 	case 22:
 		g.feat("exists")
-		return cat(g.kw("EXISTS"), g.subquery(d-1, g.n("exn", 1, 2), true))
+		return cat(g.kw("EXISTS"), g.subquery(d-1, g.n("exn", 1, 2), true)), 2
 	case 23:
 		g.feat("row_value")
-		rv := func() []string { return g.paren(g.list(2, sub)) }
+		rv := func() []string { return g.paren(g.list(2, g.atomArg(d-1, c))) }
 		switch g.n("rvk", 0, 5) {
 		case 0:
-			return cat(rv(), one(g.pick("cop4", cmpOps)), rv())
+			return cat(rv(), one(g.pick("cop4", cmpOps)), rv()), 2
 		case 1:
-			return cat(rv(), g.kw("IN"), g.paren(g.list(g.n("rvn", 1, 2), rv)))
+			return cat(rv(), g.kw("IN"), g.paren(g.list(g.n("rvn", 1, 2), rv))), 2
 		case 2:
-			return cat(rv(), g.kw("NOT BETWEEN"), rv(), g.kw("AND"), rv())
+			return cat(rv(), g.kw("NOT BETWEEN"), rv(), g.kw("AND"), rv()), 2
 		case 3:
-			return cat(rv(), one(g.pick("cop5", cmpOps)), g.kw(g.pick("anyall2", []string{"ANY", "ALL"})), g.paren(g.list(g.n("rvn2", 1, 2), rv)))
+			return cat(rv(), one(g.pick("cop5", cmpOps)), g.kw(g.pick("anyall2", []string{"ANY", "ALL"})), g.paren(g.list(g.n("rvn2", 1, 2), rv))), 2
 		case 4:
 			g.feat("json_row")
-			return cat(rv(), g.kw("IN"), g.kw("JSON_ROW"), g.paren(cat(one("'[]'"), one(","), one("'[[1,2],[3,4]]'"))))
+			return cat(rv(), g.kw("IN"), g.kw("JSON_ROW"), g.paren(cat(one("'[]'"), one(","), one("'[[1,2],[3,4]]'")))), 2
 		}
-		return cat(rv(), one("="), g.subquery(d-1, 2, false))
+		return cat(rv(), one("="), g.subquery(d-1, 2, false)), 2
 	case 24:
 		g.feat("json_row")
-		return cat(sub(), g.kw("IN"), g.kw("JSON_ROW"), g.paren(cat(one(g.pick("jq", []string{"'[]'", "'k[]'", "''"})), one(","), one(g.pick("jt", []string{"'[1,2,3]'", "'{\"k\":[1,\"a\"]}'", "'x'"})))))
+		pair := g.rare("'k[]'\x00'x'", []string{"'[]'\x00'[1,2,3]'", "'k[]'\x00'{\"k\":[1,\"a\"]}'", "'[]'\x00'[\"a\",null]'", "'k.l[]'\x00'{\"k\":{\"l\":[2,3]}}'"})
+		jq, jt, _ := strings.Cut(pair, "\x00")
+		return cat(low(), g.kw("IN"), g.kw("JSON_ROW"), g.paren(cat(one(jq), one(","), one(jt)))), 2
 	case 25, 26:
 		g.feat("case")
 		var out []string
@@ -432,10 +495,14 @@ func (g *qg) expr(d int, c ectx) []string {
 		if g.chance("caseelse", 60) {
 			out = cat(out, g.kw("ELSE"), sub())
 		}
-		return cat(out, g.kw("END"))
+		return cat(out, g.kw("END")), 0
 	case 27, 28, 29:
 		g.feat("function")
 		f := scalarFns[g.n("fn", 0, len(scalarFns)-1)]
+		if g.n("pofn", 0, 39) == 0 {
+			g.feat("parse_only_function")
+			f = parseOnlyFns[g.n("pofnk", 0, len(parseOnlyFns)-1)]
+		}
 		name := f.name
 		if g.chance("fnlower", 30) {
 			name = strings.ToLower(name)
@@ -444,20 +511,20 @@ func (g *qg) expr(d int, c ectx) []string {
 			g.feat("quoted_function_name")
 			name = "`" + name + "`"
 		}
-		return cat(one(name), g.paren(g.list(g.n("fnargs", f.min, f.max), sub)))
+		return cat(one(name), g.paren(g.list(g.n("fnargs", f.min, f.max), g.atomArg(d-1, c)))), 0
 	case 30:
 		g.feat("keyword_function")
 		switch g.n("kwfn", 0, 5) {
 		case 0:
-			return cat(g.kw("SUBSTRING"), g.paren(cat(sub(), g.kw("FROM"), sub())))
+			return cat(g.kw("SUBSTRING"), g.paren(cat(sub(), g.kw("FROM"), sub()))), 0
 		case 1:
-			return cat(g.kw("SUBSTRING"), g.paren(cat(sub(), g.kw("FROM"), sub(), g.kw("FOR"), sub())))
+			return cat(g.kw("SUBSTRING"), g.paren(cat(sub(), g.kw("FROM"), sub(), g.kw("FOR"), sub()))), 0
 		case 2:
-			return cat(g.kw("SUBSTRING"), g.paren(g.list(2, sub)))
+			return cat(g.kw("SUBSTRING"), g.paren(g.list(2, g.atomArg(d-1, c)))), 0
 		case 3:
-			return cat(g.kw("IF"), g.paren(g.list(3, sub)))
+			return cat(g.kw("IF"), g.paren(g.list(3, g.atomArg(d-1, c)))), 0
 		case 4:
-			return cat(g.kw("REPLACE"), g.paren(g.list(3, sub)))
+			return cat(g.kw("REPLACE"), g.paren(g.list(3, g.atomArg(d-1, c)))), 0
 		}
 		g.feat("json_object")
 		return cat(g.kw("JSON_OBJECT"), g.paren(g.list(g.n("jon", 0, 2), func() []string {
@@ -465,25 +532,30 @@ func (g *qg) expr(d int, c ectx) []string {
 				return cat(sub(), g.kw("AS"), one(g.alias()))
 			}
 			return g.leaf(ectx{cols: c.cols})
-		})))
+		}))), 0
 	case 31:
 		g.feat("scalar_subquery")
-		return g.subquery(d-1, 1, false)
+		return g.subquery(d-1, 1, false), 0
 	case 32:
 		g.feat("var_substitution")
-		return g.paren(cat(one(g.pick("svar", []string{"@v1", "@v2", "@v3"})), one(":="), sub()))
+		return g.paren(cat(one(g.pick("svar", []string{"@v1", "@v2", "@v3"})), one(":="), sub())), 0
 	case 33, 34, 35:
 		if c.agg {
-			return g.aggregate(d, noAgg)
+			return g.aggregate(d, noAgg), 0
 		}
-		return cat(sub(), one(g.pick("aop2", []string{"+", "-", "*"})), sub())
+		return cat(low(), one(g.pick("aop2", []string{"+", "-", "*"})), low()), lv(1)
 	case 36, 37, 38:
 		if c.analytic {
-			return g.analytic(d, noAgg)
+			return g.analytic(d, noAgg), 0
 		}
-		return cat(sub(), one(g.pick("cop6", cmpOps)), sub())
+		return cat(low(), one(g.pick("cop6", cmpOps)), low()), 2
 	}
-	return g.leaf(c)
+	return g.leaf(c), 0
+}
+
+// atomArg: generator of list elements (any expression; commas delimit them).
+func (g *qg) atomArg(d int, c ectx) func() []string {
+	return func() []string { return g.expr(d, c) }
 }
 
 var aggNames = []string{"COUNT", "SUM", "AVG", "MIN", "MAX", "MEDIAN", "STDEV", "STDEVP", "VAR", "VARP", "uagg"}
@@ -622,14 +694,21 @@ func (g *qg) subquery(d int, ncols int, manyRows bool) []string {
 func (g *qg) tableRef(d int) ([]string, []col) {
 	k := g.n("tbl", 0, 13)
 	withAlias := func(obj []string, refName string, names []string, force bool) ([]string, []col) {
-		if force || g.chance("talias", 40) {
+		dup := g.used != nil && g.used[strings.ToUpper(refName)] && g.n("allowdup", 0, 19) != 0
+		if force || dup || g.chance("talias", 40) {
 			g.feat("table_alias")
 			a := g.pick("taliasname", []string{"a", "b", "x", "t", "u", "my alias", "T1"})
+			for i := 0; g.used != nil && g.used[strings.ToUpper(a)] && i < 5; i++ {
+				a = a + "2"
+			}
 			refName = a
 			if g.chance("tas", 50) {
 				obj = cat(obj, g.kw("AS"))
 			}
 			obj = cat(obj, one(g.ident(a)))
+		}
+		if g.used != nil {
+			g.used[strings.ToUpper(refName)] = true
 		}
 		cols := make([]col, len(names))
 		for i, n := range names {
@@ -658,9 +737,11 @@ func (g *qg) tableRef(d int) ([]string, []col) {
 		case 3:
 			return withAlias(cat(g.kw("CSV_INLINE"), g.paren(cat(one("','"), one(","), one(`'k1,k2\n1,"a b"\n2,'`)))), "", []string{"k1", "k2"}, true)
 		case 4:
-			return withAlias(cat(g.kw("JSON"), g.paren(cat(one("''"), one(","), one("DATA::"), g.paren(one(`'[{"k1":1,"k2":"x"}]'`))))), "", []string{"k1", "k2"}, true)
+			return withAlias(cat(g.kw("JSON"), g.paren(cat(one("''"), one(","), one("DATA::("), one(`'[{"k1":1,"k2":"x"}]'`), one(")")))), "", []string{"k1", "k2"}, true)
 		}
-		return withAlias(cat(g.kw("CSV"), g.paren(cat(one("','"), one(","), one("data::"), g.paren(one(`'k1,k2\n5,6\n'`))))), "", []string{"k1", "k2"}, true)
+		return withAlias(cat(g.kw("CSV"), g.paren(cat(one("','"), one(","), one("data::("), one(`'k1,k2\n5,6\n'`), one(")")))), "", []string{"k1", "k2"}, true)
+	case k == 9 && g.n("potblgate", 0, 2) != 0:
+		return g.join(d)
 	case k == 9:
 		g.feat("parse_only_table")
 		k := g.n("potbl", 0, 3)
@@ -673,7 +754,7 @@ func (g *qg) tableRef(d int) ([]string, []col) {
 		case 1:
 			return one("file:./t1.csv"), []col{{"", "c1"}}
 		case 2:
-			return cat(one("FILE::"), g.paren(one("'t1.csv'"))), []col{{"", "c1"}}
+			return cat(one("FILE::("), one("'t1.csv'"), one(")")), []col{{"", "c1"}}
 		}
 		return one("https://example.com/data.csv?x=1&y=2"), nil
 	case k == 10:
@@ -712,6 +793,31 @@ func (g *qg) join(d int) ([]string, []col) {
 	left, lc := g.tableRef(min(d-1, 1))
 	right, rc, lateral := g.joinRight(d)
 	all := append(append([]col(nil), lc...), rc...)
+	// after NATURAL / USING the common columns can only be referenced without a qualifier
+	merged := func(names map[string]bool) []col {
+		var out []col
+		seen := map[string]bool{}
+		for _, c := range all {
+			if names[c.name] {
+				if !seen[c.name] {
+					seen[c.name] = true
+					out = append(out, col{"", c.name})
+				}
+				continue
+			}
+			out = append(out, c)
+		}
+		return out
+	}
+	commonNames := map[string]bool{}
+	for _, a := range lc {
+		for _, b := range rc {
+			if a.name == b.name {
+				commonNames[a.name] = true
+			}
+		}
+	}
+	usingCol := ""
 	cond := func() []string {
 		var common []string
 		for _, a := range lc {
@@ -723,6 +829,7 @@ func (g *qg) join(d int) ([]string, []col) {
 		}
 		if len(common) > 0 && g.chance("using", 40) {
 			g.feat("join_using")
+			usingCol = common[0]
 			return cat(g.kw("USING"), g.paren(one(g.ident(common[0]))))
 		}
 		return cat(g.kw("ON"), g.expr(1, ectx{cols: all}))
@@ -732,44 +839,88 @@ func (g *qg) join(d int) ([]string, []col) {
 		g.feat("cross_join")
 		return cat(left, g.kw("CROSS JOIN"), right), all
 	case 1, 2:
-		return cat(left, g.kw(g.pick("inner", []string{"JOIN", "INNER JOIN"})), right, cond()), all
+		out := cat(left, g.kw(g.pick("inner", []string{"JOIN", "INNER JOIN"})), right, cond())
+		if usingCol != "" {
+			return out, merged(map[string]bool{usingCol: true})
+		}
+		return out, all
 	case 3, 4:
 		g.feat("outer_join")
 		dirs := []string{"LEFT", "RIGHT", "FULL", "LEFT OUTER", "RIGHT OUTER", "FULL OUTER"}
 		if lateral {
 			dirs = []string{"LEFT", "LEFT OUTER"}
 		}
-		return cat(left, g.kw(g.pick("outer", dirs)+" JOIN"), right, cond()), all
+		out := cat(left, g.kw(g.pick("outer", dirs)+" JOIN"), right, cond())
+		if usingCol != "" {
+			return out, merged(map[string]bool{usingCol: true})
+		}
+		return out, all
 	case 5:
 		g.feat("natural_join")
-		return cat(left, g.kw(g.pick("natural", []string{"NATURAL JOIN", "NATURAL INNER JOIN"})), right), all
+		return cat(left, g.kw(g.pick("natural", []string{"NATURAL JOIN", "NATURAL INNER JOIN"})), right), merged(commonNames)
 	case 6:
 		g.feat("natural_join")
 		dirs := []string{"NATURAL LEFT JOIN", "NATURAL RIGHT OUTER JOIN", "NATURAL FULL JOIN", "NATURAL LEFT OUTER JOIN"}
 		if lateral {
 			dirs = []string{"NATURAL LEFT JOIN", "NATURAL LEFT OUTER JOIN"}
 		}
-		return cat(left, g.kw(g.pick("naturalouter", dirs)), right), all
+		return cat(left, g.kw(g.pick("naturalouter", dirs)), right), merged(commonNames)
 	}
-	return cat(left, g.kw("JOIN"), right, cond()), all
+	out := cat(left, g.kw("JOIN"), right, cond())
+	if usingCol != "" {
+		return out, merged(map[string]bool{usingCol: true})
+	}
+	return out, all
 }
 
+// subTable renders "[LATERAL] (query) [AS] alias".
+func (g *qg) subTable(d int, lateralPct int) ([]string, []col) {
+	var out []string
+	if g.chance("sublateral", lateralPct) {
+		g.feat("lateral")
+		out = g.kw("LATERAL")
+	} else {
+		g.feat("subquery_table")
+	}
+	q, names := g.query(d-1, g.n("stcols", 1, 2), true, false)
+	a := g.pick("stalias", []string{"l1", "l2", "s 1", "S"})
+	out = cat(out, g.paren(q))
+	if g.chance("stas", 50) {
+		out = cat(out, g.kw("AS"))
+	}
+	out = cat(out, one(g.ident(a)))
+	cols := make([]col, len(names))
+	for i, nm := range names {
+		cols[i] = col{a, nm}
+	}
+	return out, cols
+}
+
+// from follows csvq's grammar: FROM table [, {[LATERAL] subquery-table ,}... {table | LATERAL subquery-table}]
+// (a plain table can only be the first or the last element of the list).
 func (g *qg) from(d int) ([]string, []col) {
+	saved := g.used
+	g.used = map[string]bool{}
+	defer func() { g.used = saved }()
 	out := g.kw("FROM")
 	t, cols := g.tableRef(d)
 	out = cat(out, t)
-	for i, n := 0, g.n("fromextra", 0, 9); i < n-7; i++ {
-		g.feat("comma_tables")
-		if d > 0 && g.chance("commalateral", 30) {
-			g.feat("lateral")
-			q, names := g.query(d-1, 1, true, false)
-			a := g.pick("latalias2", []string{"l1", "l2"})
-			out = cat(out, one(","), g.kw("LATERAL"), g.paren(q), one(a))
-			for _, nm := range names {
-				cols = append(cols, col{a, nm})
-			}
-			continue
+	if !g.chance("fromcomma", 25) {
+		return out, cols
+	}
+	g.feat("comma_tables")
+	if d > 0 {
+		for i, n := 0, g.n("fromsubs", 0, 3); i < n-1; i++ {
+			st, sc := g.subTable(d, 40)
+			out = cat(out, one(","), st)
+			cols = append(cols, sc...)
 		}
+	}
+	if d > 0 && g.chance("lastlateral", 30) {
+		st, sc := g.subTable(d, 100)
+		out = cat(out, one(","), st)
+		cols = append(cols, sc...)
+	} else {
 		t2, c2 := g.tableRef(min(d, 1))
 		out = cat(out, one(","), t2)
 		cols = append(cols, c2...)
@@ -794,6 +945,7 @@ func (g *qg) entity(d int, ncols int, named bool, oneRow bool) ([]string, []stri
 	}
 	g.feat("entity:" + mode)
 	fieldCtx := ectx{cols: cols}
+	distinctPlain := false
 	var groupCols []col
 	switch mode {
 	case "grouped":
@@ -812,6 +964,7 @@ func (g *qg) entity(d int, ncols int, named bool, oneRow bool) ([]string, []stri
 	if g.chance("distinct", 12) {
 		g.feat("distinct")
 		out = cat(out, g.kw("DISTINCT"))
+		distinctPlain = mode == "plain" || mode == "analytic"
 	}
 	n := ncols
 	if n == 0 {
@@ -883,7 +1036,7 @@ func (g *qg) entity(d int, ncols int, named bool, oneRow bool) ([]string, []stri
 			out = cat(out, g.kw("HAVING"), g.aggregate(1, ectx{cols: cols}), one(g.pick("hop", cmpOps)), g.leaf(ectx{}))
 		}
 	}
-	return out, names, fieldCtx
+	return out, names, ectx{cols: fieldCtx.cols, agg: fieldCtx.agg || distinctPlain} // agg: the caller orders by position only
 }
 
 // query renders a full select query. named: fields carry known aliases (returned). oneRow: prefer a single-row result.
@@ -894,11 +1047,12 @@ func (g *qg) query(d int, ncols int, named bool, oneRow bool) ([]string, []strin
 	if d > 0 && g.chance("with", 12) {
 		g.feat("with")
 		out = g.kw("WITH")
+		cteBase := g.n("ctebase", 0, 3)
 		for i, n := 0, g.n("nctes", 1, 2); i < n; i++ {
 			if i > 0 {
 				out = append(out, ",")
 			}
-			name := g.pick("ctename", []string{"cte1", "cte2", "my cte", "r"})
+			name := []string{"cte1", "cte2", "my cte", "r"}[(cteBase+i)%4]
 			if g.chance("recursive", 30) {
 				g.feat("recursive")
 				out = cat(out, g.kw("RECURSIVE"), one(g.ident(name)), g.paren(one("n")), g.kw("AS"),
@@ -1191,11 +1345,11 @@ func docBlocks() []string {
 }
 
 func genTotalCase(t *rapid.T) totalCase {
-	c := totalCase{Prepared: fw.Chance(t, "prepared", 40), Ansi: fw.Chance(t, "ansi", 40)}
+	c := totalCase{Prepared: chance(t, "prepared", 40), Ansi: chance(t, "ansi", 40)}
 	voc := vocab()
-	soupTok := func() string { return voc[rapid.IntRange(0, len(voc)-1).Draw(t, "soup")] }
+	soupTok := func() string { return voc[uniform(t, "soup", 0, len(voc)-1)] }
 	seps := []string{" ", " ", " ", "", "\n", "\r\n", "\t", "  "}
-	mode := rapid.IntRange(0, 99).Draw(t, "mode")
+	mode := uniform(t, "mode", 0, 99)
 	switch {
 	case mode < 10:
 		c.Kind = "bytes"
@@ -1203,12 +1357,12 @@ func genTotalCase(t *rapid.T) totalCase {
 	case mode < 35:
 		c.Kind = "soup"
 		var b strings.Builder
-		if fw.Chance(t, "soupselect", 50) {
+		if chance(t, "soupselect", 50) {
 			b.WriteString("SELECT ")
 		}
-		for i, n := 0, rapid.IntRange(0, 30).Draw(t, "soupn"); i < n; i++ {
+		for i, n := 0, uniform(t, "soupn", 0, 30); i < n; i++ {
 			b.WriteString(soupTok())
-			b.WriteString(fw.Pick(t, "sep", seps))
+			b.WriteString(pickOf(t, "sep", seps))
 		}
 		c.Src = []byte(b.String())
 	case mode < 65:
@@ -1216,26 +1370,26 @@ func genTotalCase(t *rapid.T) totalCase {
 		toks, g := genQueryToks(t, c.Prepared, c.Ansi)
 		toks = damage(t, toks, soupTok)
 		c.Src = []byte(g.joinToks(toks))
-		if fw.Chance(t, "truncate", 15) && len(c.Src) > 0 {
+		if chance(t, "truncate", 15) && len(c.Src) > 0 {
 			c.Kind = "truncated_query"
-			c.Src = c.Src[:rapid.IntRange(0, len(c.Src)-1).Draw(t, "cut")]
+			c.Src = c.Src[:uniform(t, "cut", 0, len(c.Src)-1)]
 		}
 	case mode < 90:
 		c.Kind = "damaged_statements"
 		var parts []string
 		docs := docBlocks()
-		for i, n := 0, rapid.IntRange(1, 4).Draw(t, "nstmts"); i < n; i++ {
-			if len(docs) > 0 && fw.Chance(t, "fromdocs", 35) {
-				parts = append(parts, docs[rapid.IntRange(0, len(docs)-1).Draw(t, "doc")])
+		for i, n := 0, uniform(t, "nstmts", 1, 4); i < n; i++ {
+			if len(docs) > 0 && chance(t, "fromdocs", 35) {
+				parts = append(parts, docs[uniform(t, "doc", 0, len(docs)-1)])
 			} else {
-				parts = append(parts, stmtTemplates[rapid.IntRange(0, len(stmtTemplates)-1).Draw(t, "tmpl")])
+				parts = append(parts, stmtTemplates[uniform(t, "tmpl", 0, len(stmtTemplates)-1)])
 			}
 		}
-		src := strings.Join(parts, fw.Pick(t, "stmtsep", []string{"; ", ";\n", ";", " ;\n\n", "\n"}))
-		if fw.Chance(t, "trailsemi", 70) {
+		src := strings.Join(parts, pickOf(t, "stmtsep", []string{"; ", ";\n", ";", " ;\n\n", "\n"}))
+		if chance(t, "trailsemi", 70) {
 			src += ";"
 		}
-		if fw.Chance(t, "damage", 60) {
+		if chance(t, "damage", 60) {
 			c.Kind = "damaged_statements/damaged"
 			toks := damage(t, strings.Fields(src), soupTok)
 			src = strings.Join(toks, " ")
@@ -1245,8 +1399,8 @@ func genTotalCase(t *rapid.T) totalCase {
 		c.Src = []byte(src)
 	default:
 		c.Kind = "stress"
-		n := fw.Pick(t, "stressn", []int{50, 200, 600, 1000, 2500, 5000})
-		switch rapid.IntRange(0, 11).Draw(t, "stress") {
+		n := pickOf(t, "stressn", []int{20, 50, 200, 600, 1000, 2500, 5000})
+		switch uniform(t, "stress", 0, 11) {
 		case 0:
 			c.Kind += "/parens"
 			c.Prefix, c.Open, c.Mid, c.Close = "SELECT ", "(", "1", ")"
@@ -1264,27 +1418,27 @@ func genTotalCase(t *rapid.T) totalCase {
 			c.Prefix, c.Mid, c.Close = "SELECT ", "1", ")"
 		case 5:
 			c.Kind += "/comments"
-			c.Prefix, c.Open, c.Mid = "SELECT ", fw.Pick(t, "cm", []string{"/* c */", "-- c\n", "/**/ ", "--\r\n"}), "1"
+			c.Prefix, c.Open, c.Mid = "SELECT ", pickOf(t, "cm", []string{"/* c */", "-- c\n", "/**/ ", "--\r\n"}), "1"
 		case 6:
 			c.Kind += "/long_string"
-			c.Prefix, c.Open, c.Mid = "SELECT '", fw.Pick(t, "ls", []string{"a", "''", "\\'", "\\\\", "\n", "日本"}), fw.Pick(t, "lsend", []string{"'", "", "' AS x"})
+			c.Prefix, c.Open, c.Mid = "SELECT '", pickOf(t, "ls", []string{"a", "''", "\\'", "\\\\", "\n", "日本"}), pickOf(t, "lsend", []string{"'", "", "' AS x"})
 			n *= 4
 		case 7:
 			c.Kind += "/long_identifier"
-			c.Prefix, c.Open, c.Mid = "SELECT "+fw.Pick(t, "liq", []string{"", "`", "@", "@@", "@%", ":", "a::"}), fw.Pick(t, "li", []string{"a", "日", "_1"}), fw.Pick(t, "liend", []string{"", "`", " FROM t"})
+			c.Prefix, c.Open, c.Mid = "SELECT "+pickOf(t, "liq", []string{"", "`", "@", "@@", "@%", ":", "a::"}), pickOf(t, "li", []string{"a", "日", "_1"}), pickOf(t, "liend", []string{"", "`", " FROM t"})
 			n *= 4
 		case 8:
 			c.Kind += "/long_number"
-			c.Prefix, c.Open, c.Mid = "SELECT ", fw.Pick(t, "ln", []string{"9", "0", "1."}), fw.Pick(t, "lnend", []string{"", ".5", "e5", "e"})
+			c.Prefix, c.Open, c.Mid = "SELECT ", pickOf(t, "ln", []string{"9", "0", "1."}), pickOf(t, "lnend", []string{"", ".5", "e5", "e"})
 		case 9:
 			c.Kind += "/operators"
-			c.Prefix, c.Open, c.Mid = "SELECT 1", fw.Pick(t, "lo", []string{" + 1", " - -1", " || 'a'", " AND 1", " = 1", "!", "=", "<", "- ", " NOT", "::"}), ""
+			c.Prefix, c.Open, c.Mid = "SELECT 1", pickOf(t, "lo", []string{" + 1", " - -1", " || 'a'", " AND 1", " = 1", "!", "=", "<", "- ", " NOT", "::"}), ""
 		case 10:
 			c.Kind += "/statements"
-			c.Open = fw.Pick(t, "lst", []string{"SELECT 1;", ";", "COMMIT;", "IF 1 THEN ", "WHILE 1 DO ", "BEGIN ", "@a := 1;"})
+			c.Open = pickOf(t, "lst", []string{"SELECT 1;", ";", "COMMIT;", "IF 1 THEN ", "WHILE 1 DO ", "BEGIN ", "@a := 1;"})
 		case 11:
 			c.Kind += "/lists"
-			c.Prefix, c.Open, c.Mid = "SELECT 1", fw.Pick(t, "ll", []string{", 1", ", (1, 2)", " UNION SELECT 1", ", a.b", " , 'x' AS y"}), fw.Pick(t, "llend", []string{"", " FROM t1", ","})
+			c.Prefix, c.Open, c.Mid = "SELECT 1", pickOf(t, "ll", []string{", 1", ", (1, 2)", " UNION SELECT 1", ", a.b", " , 'x' AS y"}), pickOf(t, "llend", []string{"", " FROM t1", ","})
 		}
 		c.N = n
 		if c.Open == "" && c.Close == "" {
@@ -1297,13 +1451,13 @@ func genTotalCase(t *rapid.T) totalCase {
 // damage applies a few token-level edits.
 func damage(t *rapid.T, toks []string, soupTok func() string) []string {
 	toks = append([]string(nil), toks...)
-	for i, n := 0, rapid.IntRange(0, 3).Draw(t, "nedits"); i < n; i++ {
+	for i, n := 0, uniform(t, "nedits", 0, 3); i < n; i++ {
 		if len(toks) == 0 {
 			toks = append(toks, soupTok())
 			continue
 		}
-		p := rapid.IntRange(0, len(toks)-1).Draw(t, "pos")
-		switch rapid.IntRange(0, 5).Draw(t, "edit") {
+		p := uniform(t, "pos", 0, len(toks)-1)
+		switch uniform(t, "edit", 0, 5) {
 		case 0: // delete
 			toks = append(toks[:p], toks[p+1:]...)
 		case 1: // duplicate
